@@ -28,7 +28,7 @@ def balanced_run(stmts, inputs):
     exec(N_TEMPLATE, ns)
     if stack[-1] != 0:
         return explain('n at top level', stack[-1])
-    return True
+    return path_ok()
 
 N_TEMPLATE = E.elements["n"][0]
 '''
@@ -92,6 +92,7 @@ def build(tier, seed, known):
     src += fn_src("twin_for_break", "inputs: List[int]", ["len(inputs) == 3", SMALL], ["return balanced_run(STMTS_for_break_in_if, inputs) and inputs[0] < 2"])
     plan.obs.append(Ob("twin_for_break", "prog", "m", "twin_for_break", 120, "refuted", "reachability twin"))
     plan.modules["m"] = src
+    plan.require_ok_marker = True
     plan.functions_encoded = ["vyxal/transpile.py: every structure template incl. BreakStatement / RecurseStatement lowering (text exec'ed symbolically)", "vyxal/helpers.py: pop get_input iterable wrapify safe_apply deep_copy",
                               "vyxal/LazyList.py: output", "vyxal/elements.py: vy_print function_call vy_map vy_filter modifiers' templates"]
     plan.rule = "skeleton = program with break/continue/recurse at a legal position or a lazy-list print; the solver quantifies over the inputs that decide loop counts, branches and which iteration exits early"
